@@ -39,7 +39,7 @@ def run(chk: Check, model):
     if not ok:
         chk.unknown("C12.scan", "step", f"step returns {T.show(out)[:200]}", chk.loc(f_step))
     else:
-        (ts_next, rng_next), vertex = out[1][0][1], dict(out[1][1][2])
+        (ts_next, rng_next), vertex = out[1][0][1], {k: T.where_to_ite(v) for k, v in out[1][1][2]}
         split = T.mk_call("jax.random.split", [S("rng_prev")], [("num", T.const(2))])
         samples = [x for x in T.walk(vertex["ts_end"]) if x[0] == "index" and x[1][0] == "call" and T.call_name(x[1]).endswith(".sample")]
         d = samples[0] if samples else None
@@ -89,7 +89,7 @@ def run(chk: Check, model):
         except T.NoValue as ex:
             chk.unknown("C12.tie", "search loop condition", f"not comparison-only: {ex}", chk.loc(f_sb))
         found = w.term
-        clipped = out[1][1]
+        clipped = T.where_to_ite(out[1][1])
         chk.add("C12.tie", "scan carries the found step", out[1][0] == found, "the scan must carry the step found for this message to the next message", chk.loc(f_sb))
         s_f = T.mk_index(S("ts_start"), found)
         ok = clipped[0] == "ite" and clipped[2] == found and T.const_value(clipped[3]) == -1
@@ -169,7 +169,7 @@ def run(chk: Check, model):
     # edge construction
     if est:
         e = est[0]
-        ed = dict(e.term[2]) if e.term[0] == "obj" and e.term[1] == "Edge" else None
+        ed = {k: T.where_to_ite(v) for k, v in e.term[2]} if e.term[0] == "obj" and e.term[1] == "Edge" else None
         if ed is None:
             chk.unknown("C12.mask", "Edge", f"edges[...] = {T.show(e.term)[:120]}", chk.loc(f_ep, e.node))
         else:
@@ -203,7 +203,7 @@ def run(chk: Check, model):
                         okc = skipt[0] == "attr" and skipt[2] == "skip" and tst[0] == "attr" and tst[2] == "ts_start" and tst[1][0] == "index" and tst[1][2] == i_
                         conn = skipt[1]
                     chk.add("C12.tie", "search uses the connection's skip flag and the receiver's start times", bool(okc), "scan(partial(_scan_body_seq, c.skip, vertices[input_name].ts_start), 0, ts_recv)", chk.loc(f_ep, sc2[0].node))
-                    xs = sc2[0].args[2] if len(sc2[0].args) > 2 else T.NONE
+                    xs = T.where_to_ite(sc2[0].args[2]) if len(sc2[0].args) > 2 else T.NONE
                     unsent = T.eq(so0, T.const(-1), numeric=True)
                     okr = T.const_value(sc2[0].args[1]) == 0
                     for v in (True, False):
